@@ -106,8 +106,8 @@ Proof. exact new_member_limit_refuted. Qed.
 Print Assumptions c11_new_member_limit_refuted.
 
 (** Stability under re-serialising and re-parsing, IF the re-serialised form is
-    within the limits (members compared modulo the zero-valued properties the
-    parser keeps for empty ';;' pieces, see Spec.norm).
+    within the limits (this older, weaker form compares modulo Spec.norm; c11_reparse_strict
+    below gives exact equality under the same guard).
     (Full statement, which FAILS - see c11_reparse_refuted:
        forall s b, parse s = Some b -> exists b', parse (baggage_string b) = Some b' /\ norm b' = norm b.) *)
 Theorem c11_reparse_stable_partial : forall s b, parse s = Some b ->
@@ -115,6 +115,38 @@ Theorem c11_reparse_stable_partial : forall s b, parse s = Some b ->
   exists b', parse (baggage_string b) = Some b' /\ norm b' = norm b.
 Proof. exact reparse_stable. Qed.
 Print Assumptions c11_reparse_stable_partial.
+
+(** Re-parsing, strictly: every baggage that Parse produces, if its header is within the limits, parses
+    back to EXACTLY itself (members, values, properties - nothing compared modulo anything), and String()
+    drops nothing of it.  (Holds since fix 72863c6: Parse skips empty ';;' property pieces.) *)
+Theorem c11_reparse_strict : forall s b, parse s = Some b ->
+  header_within_limits (baggage_string b) = true ->
+  parse (baggage_string b) = Some b /\ map reser_member b = b.
+Proof. exact reparse_strict. Qed.
+Print Assumptions c11_reparse_strict.
+
+(** The parser as it was BEFORE the fix ([parse_old]: an empty property piece kept as a zero-valued
+    Property) violates it within the limits - F-C11-3, "k=v;;p": the check reports the return of the defect. *)
+Theorem c11_reparse_strict_old_refuted :
+  exists s b b', parse_old s = Some b /\ header_within_limits (baggage_string b) = true /\
+                 parse_old (baggage_string b) = Some b' /\ b' <> b.
+Proof. exact reparse_strict_old_refuted. Qed.
+Print Assumptions c11_reparse_strict_old_refuted.
+
+(** The percent-encoding constructor: NewMember(k, v, props) succeeds only with a token key, a value of
+    baggage-octets whose escapes are well formed and decode to UTF-8, and valid properties; it stores the
+    DECODED value; on an escaped value it is NewMemberRaw. *)
+Theorem c11_new_member : forall k v ps,
+  (forall m, new_member k v ps = Some m ->
+     exists u, path_unescape v = Some u /\ m = (k, u, ps) /\ token k = true /\ utf8_b u = true /\
+               forallb prop_valid ps = true /\ forallb baggage_octet v = true) /\
+  (Forall (fun b => b < 256) v -> token k = true ->
+     new_member k (value_escape v) ps = new_member_raw k v ps).
+Proof.
+  intros k v ps. split; [intros m; apply new_member_inv|].
+  intros Hb Hk. apply new_member_escape; [exact Hb|now rewrite validate_key_token].
+Qed.
+Print Assumptions c11_new_member.
 
 Theorem c11_reparse_refuted :
   exists s b, parse s = Some b /\ header_within_limits s = true /\ parse (baggage_string b) = None.
@@ -168,3 +200,11 @@ Example ex_edit :
   fold_left apply_edit [ESet (Some (str "k2", str "v", [])); EDel (str "user"); ESet None] ex_bag
   = [(str "k2", str "v", [])].
 Proof. reflexivity. Qed.
+
+Example ex_reparse_zero :
+  parse (str "k=v;;p,z=1;") = Some [(str "k", str "v", [(str "p", None)]); (str "z", str "1", [])] /\
+  parse_old (str "k=v;;p,z=1;") = Some [(str "k", str "v", [([], None); (str "p", None)]); (str "z", str "1", [([], None)])] /\
+  baggage_string [(str "k", str "v", [(str "p", None)]); (str "z", str "1", [])] = str "k=v;p,z=1" /\
+  new_member (str "k") (str "a%20b%C3%A9") [] = Some (str "k", hx "612062c3a9", []) /\
+  new_member (str "k") (str "%FF") [] = None /\ new_member (str "k") (str "a b") [] = None.
+Proof. vm_compute. repeat split. Qed.
